@@ -25,7 +25,8 @@ import math
 
 import numpy as np
 
-from ..common import Fraction, q2s, f2x, x2f, s2q, to_fraction, close
+from ..common import (Fraction, q2s, f2x, x2f, s2q, to_fraction, close, guard_ratio, harmonic_weights,
+                      guard_mismatch_is_tie)
 
 ID = 'C07'
 RULE = ('data sets = affine truth + small noise + 0-40% gross outliers of graded magnitude; all four '
@@ -329,6 +330,29 @@ def oracle_history(ctx, case, cfg, hist):
 # ---------------------------------------------------------------------------------------------
 # comparison with the model
 # ---------------------------------------------------------------------------------------------
+def singular_mismatch_is_tie(cfg, h, kind, val, mode):
+    """one of (implementation, model) ended with `singular`, the other did not: a near-tie decided by rounding?
+    fit_general: the collinearity guard was evaluated on the points of the fit that raised -- the retained
+    set reported by the side that returned (the histories agreed up to the previous nclip); the quantity it
+    tests is recomputed exactly from those points and must lie in the band around 2^-52 (`common`).
+    fit_rscale (su2v2 > 0 on coincident points) is only run on doubles: as before"""
+    if cfg['fitgeom'] != 'general':
+        return mode == 'F'
+    n = len(cfg['uv'])
+    if h[0] == 'ok':
+        mask = [bool(b) for b in h[1]['fitmask']]
+    elif kind == 'ok':
+        mask = [c == '1' for c in val['mask']]
+    else:
+        mask = [bool(b) for b in wmask_of(cfg)]
+    if len(mask) != n or sum(mask) < 3:
+        return False
+    w = harmonic_weights(n, cfg['wxy'], cfg['wuv'])
+    pts = [cfg['uv'][i] for i in range(n) if mask[i]]
+    ratio = guard_ratio(pts, [w[i] for i in range(n) if mask[i]])
+    return guard_mismatch_is_tie(ratio, mode, len(pts))
+
+
 def compare_history(ctx, case, cfg, hist, outs, mode, near_tie_from):
     xy = np.array(cfg['xy'], dtype=float).reshape(-1, 2)
     wm = wmask_of(cfg) if len(xy) else np.zeros(0, dtype=bool)
@@ -347,8 +371,10 @@ def compare_history(ctx, case, cfg, hist, outs, mode, near_tie_from):
             mk = val if kind == 'err' else 'ok'
             ctx.branch('outcome:%s' % mk)
             if ik != mk:
-                if 'singular' in (ik, mk) and not cfg.get('exact'):
-                    ctx.near_tie()      # numerically singular normal matrix: C17/F13 territory
+                if 'singular' in (ik, mk) and not cfg.get('exact') and \
+                        singular_mismatch_is_tie(cfg, h, kind, val, mode):
+                    ctx.near_tie()      # the collinearity guard of fit_general decided by rounding
+                    ctx.branch('guard-mismatch-in-band:' + mode)
                     return
                 ctx.disagree(case, {'op': 'iterfit', 'mode': mode, 'nclip': k, 'model': mk, 'impl': ik,
                                     'impl_msg': h[2] if h[0] == 'err' else None})
@@ -577,7 +603,7 @@ def hand_corpus():
 def gen_malformed(rng):
     cfg = gen_case(rng)
     kind = rng.choice(['neg-nclip', 'sigma-nonpos', 'sigma-none', 'bad-sigstat', 'bad-fitgeom', 'too-few',
-                       'all-zero-weights', 'coincident', 'nclip-none'])
+                       'all-zero-weights', 'coincident', 'collinear', 'nclip-none'])
     cfg['family'] = 'malformed:' + kind
     cfg.pop('sigma_bare', None)
     nclips = NCLIPS
@@ -620,6 +646,22 @@ def gen_malformed(rng):
         cfg['wmode'] = 'none'
         cfg['exact'] = True
         nclips = [0, 2]
+    elif kind == 'collinear':
+        # exactly collinear integer points (weights kept, made positive integers): fit_general must raise
+        # SingularMatrixError through its collinearity guard, with and without clipping
+        n = max(3, min(len(cfg['xy']), 12))
+        d = rng.choice([(1, 0), (0, 1), (1, 1), (1, -1), (2, 1), (3, 7), (5, -2)])
+        o = (rng.randint(-40, 40), rng.randint(-40, 40))
+        ts = rng.sample(range(-30, 31), n)
+        cfg['uv'] = [[float(o[0] + t * d[0]), float(o[1] + t * d[1])] for t in ts]
+        cfg['xy'] = [[u + 1.0 + 0.25 * (i % 3), v - 2.0 - 0.5 * (i % 2)] for i, (u, v) in enumerate(cfg['uv'])]
+        for key in ('wxy', 'wuv'):
+            if cfg[key] is not None:
+                cfg[key] = [float(rng.randint(1, 9)) for _ in range(n)]
+        cfg['fitgeom'] = 'general'
+        cfg['center'] = rng.choice([None, [1.0, -2.0]])
+        cfg['stat'] = 'rmse'          # so that the exact-rational model applies as well (strict comparison);
+        nclips = [0, 2]               # the double-precision model may miss an exact zero: see common.py
     elif kind == 'nclip-none':
         nclips = [None, 0]
     return cfg, nclips
@@ -671,6 +713,8 @@ def schedule(ctx, cfg, nclips, lines, pending, with_q=False):
             want = ['notEnoughPoints'] * len(nclips)
         elif fam == 'malformed:coincident':
             want = ['singular' if cfg['fitgeom'] in ('general', 'rscale') else None] * len(nclips)
+        elif fam == 'malformed:collinear':
+            want = ['singular'] * len(nclips)
         if want is not None:
             for k, h, w in zip(nclips, hist, want):
                 got = h[1] if h[0] == 'err' else None
@@ -713,7 +757,8 @@ def run(ctx):
         schedule(ctx, cfg, NCLIPS, lines, pending, with_q=(i < nq and len(cfg['xy']) <= 25))
     for _ in range(ctx.n(150, 4000)):
         cfg, nclips = gen_malformed(rng)
-        schedule(ctx, cfg, nclips, lines, pending)
+        schedule(ctx, cfg, nclips, lines, pending,
+                 with_q=cfg['family'] in ('malformed:coincident', 'malformed:collinear'))
     finish(ctx, lines, pending)
 
 
